@@ -225,7 +225,7 @@ func genE2E(r *core.Rand) []string {
 		}
 		return o
 	}
-	h := clean(genHeader(r, genOpts{name: e.name, boundary: e.boundary, loopChance: 3}))
+	h := clean(genHeader(r, genOpts{name: e.name, boundary: e.boundary, loopChance: 3, client: "127.0.0.1"}))
 	keys := make([]string, 0, len(h))
 	for k := range h {
 		keys = append(keys, k)
